@@ -77,6 +77,77 @@ class SownSweep:
         return [self.sw.code(kw) for kw in expected_settings(self.sw)]
 
 
+class observed_result_write:
+    """While active, `callback()` runs at the moment a result file has been written and closed under whatever
+    name the crop writes it to, just BEFORE the os.replace / rename that follows (or, if the crop writes in
+    place, just before the file is closed)."""
+
+    def __init__(self, callback):
+        self.callback = callback
+
+    def __enter__(self):
+        import builtins
+        import xyzpy.gen.cropping as M
+        self.M = M
+        self.saved = {n: (n in M.__dict__, M.__dict__.get(n)) for n in ("open", "os")}
+        cb, fired = self.callback, []
+
+        class Writer:
+            def __init__(self, real, final):
+                self.real, self.final = real, final
+
+            def write(self, data):
+                return self.real.write(data)
+
+            def close(self):
+                if self.final and not fired:      # written in place: look before the data is flushed
+                    fired.append(1)
+                    cb()
+                self.real.close()
+
+            def __enter__(self):
+                return self
+
+            def __exit__(self, *a):
+                self.close()
+                return False
+
+            def __getattr__(self, n):
+                return getattr(self.real, n)
+
+        def x_open(path, mode="r", *a, **k):
+            real = builtins.open(path, mode, *a, **k)
+            b = os.path.basename(str(path))
+            if "xyz-result-" in b and "w" in mode:
+                return Writer(real, b.endswith(".jbdmp"))
+            return real
+
+        real_os = M.os
+
+        class OsProxy:
+            def __getattr__(self, n):
+                return getattr(real_os, n)
+
+            @staticmethod
+            def replace(a, b, **k):
+                if "xyz-result-" in os.path.basename(str(b)) and not fired:
+                    fired.append(1)
+                    cb()
+                return real_os.replace(a, b, **k)
+            rename = replace
+        M.open = x_open
+        M.os = OsProxy()
+        return self
+
+    def __exit__(self, *exc):
+        for n, (had, val) in self.saved.items():
+            if had:
+                setattr(self.M, n, val)
+            elif n in self.M.__dict__:
+                delattr(self.M, n)
+        return False
+
+
 class failing_result_write:
     """While active, writing a result file of a crop fails like a full disk: stage 'write' -- half of the data
     reaches the file, then write() raises; stage 'close' -- the data is still buffered when close() fails to
@@ -218,6 +289,18 @@ class CropRun:
                     self.crop.grow(tuple(op[1]), num_workers=2)
                 else:
                     self.crop.grow(tuple(op[1]) if len(op[1]) != 1 else op[1][0], verbosity=0)
+            elif kind == "grow_observed":
+                self.mid_obs = None
+
+                def look():
+                    from xyzpy.gen.cropping import Crop
+                    other = Crop(name=self.name, parent_dir=self.parent)
+                    self.mid_obs = [other.num_sown_batches, other.num_results, list(other.missing_results()),
+                                    bool(other.is_ready_to_reap()), self.result_ids()]
+                with observed_result_write(look):
+                    self.crop.grow(op[1], verbosity=0)
+                if self.mid_obs is not None:
+                    extra = [self.mid_obs]
             elif kind == "grow_wfail":
                 with failing_result_write(op[2]):
                     self.crop.grow(tuple(op[1]) if len(op[1]) != 1 else op[1][0], verbosity=0)
@@ -263,6 +346,8 @@ def coq_op(op):
         return f"OGrow {zlist(op[1])}"
     if k == "grow_wfail":
         return f"OGrowWriteFails {zlist(op[1])}"
+    if k == "grow_observed":
+        return f"OGrowObserved {op[1]}"
     if k == "grow_missing":
         return "OGrowMissing"
     if k == "delete":
